@@ -7,12 +7,17 @@ Theorems about the writer state machine (`Writer/Model.lean`, `Writer/Api.lean`)
  * `Free` is safe in every state, also after an error and after `Free` (`free_safe`);
  * `Reset` returns the writer to the clean state (`reset_clean`);
  * a handle whose message ended reports the closed error for every operation (`closed_handle`).
-PARTIAL: `no_panic` for every call sequence (needs the stack/table well-formedness invariant of the
-state machine) and `build_ok_parses` are not yet theorems; they are decided on every run by the
-differential stream (bounded-exhaustive programs of length ≤ 4/5, random programs with 25 % illegal
-calls) together with the Go-side oracle (panic / GARBAGE / STICKY flags).
+ * `no_panic`: for EVERY program over the call alphabet (values, fields, elements, nested begins, ends
+   and builds through live and dead handles, Len/HasField, Err, Reset, Free, ill-typed calls; every
+   order, every length) no call reaches a panic outcome of the model (nil state, slice bounds, table
+   index): the stack/table well-formedness invariant of Lemmas/WriterInv.lean is kept by every
+   operation. `Copy`/`Merge` from an invalid source message is outside the alphabet of the theorem
+   (the Go type system only lets opened messages in; valid sources are covered by the stream).
+PARTIAL: `build_ok_parses` (a successful Build parses) is decided by the differential stream and the
+Go-side oracle (GARBAGE flag), not by a theorem.
 -/
 import SpecVerif.Writer.Api
+import SpecVerif.Lemmas.WriterInv
 namespace SpecVerif.C12
 open SpecVerif SpecVerif.Writer
 
@@ -110,5 +115,15 @@ theorem double_end (s : Sess) (h idx1 idx2 : Nat) (hd : Handle) (hh : s.handles[
 /-! non-vacuity: a concrete misuse sequence (write after a nesting violation, then Free twice) -/
 example : (run [.msg, .e 0 (encBool true), .f 0 1 (encBool true), .free, .free]).2 =
     [.ok, .badop, .ok, .ok, .ok] := by decide
+
+/-- no call of any program panics (programs without Copy from arbitrary bytes; any initial buffer) -/
+theorem no_panic (cs : List Call) (buf : Bytes) (hc : ∀ c ∈ cs, c.noCopy = true) :
+    ∀ o ∈ (run cs buf).2, o ≠ .panic :=
+  runFrom_no_panic (Sess.init buf) 0 cs (WInv_fresh buf false) hc
+
+/-- the same from any state a program can reach: after any prefix, any continuation is panic-free -/
+theorem no_panic_from (s : Sess) (idx : Nat) (cs : List Call) (hs : WInv s.w)
+    (hc : ∀ c ∈ cs, c.noCopy = true) : ∀ o ∈ (runFrom s idx cs).2, o ≠ .panic :=
+  runFrom_no_panic s idx cs hs hc
 
 end SpecVerif.C12
